@@ -35,9 +35,13 @@ class Spec(CheckSpec):
         for rep in range(reps):
             for name in ("uc7_config.yaml", "uc7_config_tap003.yaml"):
                 yield {"seed": base_seed * 1000003 + 992000 + rep * 10 + len(name), "shipped": name, "max_episode_length": 128, "n_ops": 110, "monitors": ["c19"], "op_mix": {"step": 0.95, "reset": 0.01, "fault": 0.04}}
-        for k in range(8 if tier == "quick" else 100):
+        for k in range(24 if tier == "quick" else 300):
             s = base_seed * 1000003 + 993000 + k
-            yield {"seed": s, "shipped": "uc7_config.yaml" if k % 2 else "uc7_config_tap003.yaml", "tap_variation": s, "max_episode_length": 100, "n_ops": 90, "monitors": ["c19"], "op_mix": {"step": 0.95, "reset": 0.01, "fault": 0.04}}
+            yield {"seed": s, "shipped": "uc7_config.yaml" if k % 2 else "uc7_config_tap003.yaml", "tap_variation": s, "max_episode_length": 100, "n_ops": 90, "monitors": ["c19"], "extra_faults": ["F4_uninstall"] * (2 if k % 3 else 8), "op_mix": {"step": 0.9, "reset": 0.01, "fault": 0.09} if k % 3 else {"step": 0.79, "reset": 0.01, "fault": 0.2}}
+        # a quiet defender that removes an application right after a threat actor installed it (inside a multi-action stage)
+        for k in range(16 if tier == "quick" else 200):
+            s = base_seed * 1000003 + 994000 + k
+            yield {"seed": s, "shipped": "uc7_config.yaml" if k % 4 else "uc7_config_tap003.yaml", "tap_variation": s, "max_episode_length": 128, "n_ops": 120, "monitors": ["c19"], "ambush": 0.9 if k % 2 else 0.6, "op_mix": {"step": 0.95, "reset": 0.0, "fault": 0.05}}
         for i in range(n):
             seed = base_seed * 1000003 + 190000000 + i
             prof = {"obs": False, "n_green": (1, 3), "n_red": (1, 3), "episode_len": (25, 50), "avoid": ["listen_on_ports", "routing_loop"], "tight_links": 0.05, "action_map_size": (8, 24)}
